@@ -33,12 +33,16 @@ Definition err_eqb (a b : err) : bool :=
 (* backend kind, events, implementation: delivered (id, payload), polls (batch, statuses), error *)
 (* last component: the run came from Tuner.run, so every poll must cover exactly the trials the
    model regards as running (ghost fin = Live) -- ties the ghost state to running_trials_ids *)
-Definition seq_case := (bkind * list ev * list (nat * Z) * list (list (nat * Z) * list (nat * status)) * option err * bool)%type.
+(* + the composer's recorded answers and the rows of the real results log (trial id, payload, extra columns) *)
+Definition seq_case := (bkind * list ev * list (nat * Z) * list (list (nat * Z) * list (nat * status)) * option err * bool
+                        * list (option (list Z)) * list row)%type.
+Definition row_eqb (a b : row) : bool := pz_eqb (fst a) (fst b) && list_eqb Z.eqb (snd a) (snd b).
 Definition chk_seq (c : seq_case) : bool :=
-  let '(bk, evs, iout, ipolls, ierr, tuner) := c in
+  let '(bk, evs, iout, ipolls, ierr, tuner, answers, irows) := c in
   let '(st, e) := run bk init evs in
   list_eqb pz_eqb (out st) iout && list_eqb poll_eqb (polls st) ipolls && opt_eqb err_eqb e ierr &&
-  (if tuner then run_disc bk init evs else true).
+  (if tuner then run_disc bk init evs && list_eqb row_eqb (fst (run_log bk (fun k => nth k answers None) init evs 0 [])) irows
+   else true).
 (* script based SimulatorBackend: raw operations, resumed job = what this run of the script wrote *)
 Definition s_case := (list ev * list (list (nat * Z) * list (nat * status)))%type.
 Definition chk_s (c : s_case) : bool :=
@@ -120,13 +124,15 @@ def ev_chunk(e):
     return "[" + ev_t(e) + "]"
 
 
-def seq_term(bk, evs, out, polls, err, tuner=False):
-    return "((%s, concat %s, %s, %s, %s, %s) : seq_case)" % (
+def seq_term(bk, evs, out, polls, err, tuner=False, answers=(), rows=()):
+    return "((%s, concat %s, %s, %s, %s, %s, %s, %s) : seq_case)" % (
         bk, lst(["\n    " + ev_chunk(e) for e in evs]),
         lst(["(%s, %s)" % (natlit(i), zlit(v)) for i, v in out]),
         lst(["(%s, %s)" % (lst(["(%s, %s)" % (natlit(i), zlit(v)) for i, v in b]),
                            lst(["(%s, %s)" % (natlit(i), ST[s]) for i, s in sts])) for b, sts in polls]),
-        "None" if err is None else "(Some %s)" % err, blit(tuner))
+        "None" if err is None else "(Some %s)" % err, blit(tuner),
+        lst(["None" if a is None else "(Some [%s])" % zlit(a) for a in answers]),
+        lst(["(%s, %s, %s)" % (natlit(i), zlit(v), lst([zlit(x) for x in ex])) for i, v, ex in rows]))
 
 
 # ----------------------------------------------------------------------------------------------
@@ -418,6 +424,23 @@ def quiet():
         logging.disable(lv)
 
 
+COMPOSERS = {}
+
+
+def composer_answers(cb):
+    c = COMPOSERS.get(id(cb))
+    return c.answers if c is not None else []
+
+
+def log_rows_of(cb):
+    """rows of the real results log: (trial id, payload, extra columns)"""
+    out = []
+    for r in cb.results:
+        x = r.get("extra_calls")
+        out.append((r["trial_id"], r["v"], [] if x is None else [int(x)]))
+    return out
+
+
 def run_tuner_generic(case):
     """Real Tuner.run over FakeProcLocalBackend + ScriptedScheduler. Returns the observation dict."""
     from fetch_scripted import FakeProcLocalBackend, ScriptedScheduler, ScriptedComposer
@@ -430,7 +453,9 @@ def run_tuner_generic(case):
     pol.backend = b
     sch = ScriptedScheduler(pol, b)
     comp = case["params"].get("composer", "no_composer")
-    cb = StoreResultsCallback(extra_results_composer=None if comp == "no_composer" else ScriptedComposer(comp))
+    composer = None if comp == "no_composer" else ScriptedComposer(comp)
+    cb = StoreResultsCallback(extra_results_composer=composer)
+    COMPOSERS[id(cb)] = composer
     tuner = Tuner(trial_backend=b, scheduler=sch, stop_criterion=lambda status: b.npolls >= case["n_polls"],
                   n_workers=case["W"], sleep_time=0, callbacks=[cb], tuner_name="c02", suffix_tuner_name=False,
                   save_tuner=False, max_failures=10 ** 6,
@@ -480,6 +505,7 @@ def run_tuner_generic(case):
     evs = [tuple(e) for e in evs]
     rows = [(r["trial_id"], r["v"]) for r in cb.results]
     return dict(evs=evs, out=out, polls=polls, reported=reported, timeline=timeline, rows=rows, crash=crash,
+                log_rows=log_rows_of(cb), answers=list(composer_answers(cb)),
                 window={k: list(v) for k, v in b.late_emitted.items()}, script=pol.rec,
                 mids=sum(len(e[3]) for e in evs if e[0] == "poll" and len(e) > 3))
 
@@ -502,7 +528,9 @@ def run_tuner_sim(case):
         b = ScriptedSimBackend(cfg, tuner_sleep_time=prm["sleep"])
         sch = ScriptedScheduler(pol, b)
         comp = prm.get("composer", "no_composer")
-        cb = SimulatorCallback(extra_results_composer=None if comp == "no_composer" else ScriptedComposer(comp))
+        composer = None if comp == "no_composer" else ScriptedComposer(comp)
+        cb = SimulatorCallback(extra_results_composer=composer)
+        COMPOSERS[id(cb)] = composer
         tuner = Tuner(trial_backend=b, scheduler=sch, stop_criterion=lambda status: b.npolls >= case["n_polls"],
                       n_workers=case["W"], sleep_time=0, callbacks=[cb], tuner_name="c02", suffix_tuner_name=False,
                       save_tuner=False, max_failures=10 ** 6)
@@ -583,6 +611,7 @@ def run_tuner_sim(case):
     evs = [tuple(e) for e in evs]
     rows = [(r["trial_id"], r["v"]) for r in cb.results]
     return dict(evs=evs, out=out, polls=polls, reported=reported, timeline=timeline, rows=rows, crash=crash,
+                log_rows=log_rows_of(cb), answers=list(composer_answers(cb)),
                 window=window, script=pol.rec, same_iter_resume=same_iter_resume)
 
 
@@ -721,7 +750,8 @@ def tuner_cases(ctx, replay, sim):
                 what = "%s: %s %s" % (sig["backend"], event, detail)
             ctx.violation("property", what, case=dict(rcase, first_bad=detail), signature=sig)
             break
-        terms.append(seq_term("Sim" if sim else GENERIC_KIND[0], obs["evs"], obs["out"], obs["polls"], None, tuner=True))
+        terms.append(seq_term("Sim" if sim else GENERIC_KIND[0], obs["evs"], obs["out"], obs["polls"], None, tuner=True,
+                              answers=obs.get("answers", []), rows=obs.get("log_rows", [])))
         meta.append(dict(rcase, impl_out=obs["out"], impl_polls=obs["polls"], events=[list(e) for e in obs["evs"]]))
     if terms:
         ctx.sample(dict(kind=kind, W=meta[0]["W"], n_polls=meta[0]["n_polls"], events=meta[0]["events"][:10],
